@@ -84,7 +84,18 @@ pub fn evo_case(case: &Value, dispatch: Dispatch, r: &mut Report) {
 
     let exp = case["exp"].as_array().expect("exp");
     let given: Vec<&str> = case.get("props").and_then(|p| p.as_array()).map(|a| a.iter().filter_map(|x| x.as_str()).collect()).unwrap_or_default();
-    let props: &[&str] = if !given.is_empty() { &given } else if same { &["C03", "C02"] } else { &["C03"] };
+    // a definition with transient fields on either side: what the reader puts there is C14's business as well
+    let transient = case["tr"].as_bool().unwrap_or(false) || case["rtr"].as_bool().unwrap_or(false);
+    let props: &[&str] = if !given.is_empty() {
+        &given
+    } else {
+        match (same, transient) {
+            (true, true) => &["C03", "C02", "C14"],
+            (true, false) => &["C03", "C02"],
+            (false, true) => &["C03", "C14"],
+            (false, false) => &["C03"],
+        }
+    };
     if exp[0] == "ok" {
         let want = match rops.canon(&exp[1]) {
             Ok(w) => w,
